@@ -316,6 +316,9 @@ def run_api_job(spec):
             finally:
                 sched.finish(tid)
 
+        # traced deep recursion (a module at the recursion limit, opcode events) needs far more C stack than the
+        # 8 MB a thread gets by default: without this the child dies with SIGSEGV instead of raising RecursionError
+        threading.stack_size(512 * 1024 * 1024)
         threads = [threading.Thread(target=body, args=(t,), name='caller-%d' % t) for t in range(nthreads)]
         for t in threads:
             t.start()
